@@ -86,7 +86,8 @@ pub const CTX_NAMES: [(&str, Ty); 9] = [
     ("ce", Ty::ListInt),
 ];
 
-const WORDS: [&str; 8] = ["a", "b", "Abc", "x y", "m1", "zz", "Q", "hello"];
+// (one word is not ASCII: characters and bytes differ, e.g. for the length of a loop over it)
+const WORDS: [&str; 8] = ["a", "b", "Abc", "x y", "m1", "z\u{e4}", "Q", "hello"];
 
 impl<'a> Gen<'a> {
     pub fn new(data: &'a [u8], budget: i32) -> Gen<'a> {
